@@ -11,6 +11,6 @@ func init() {
 		Rule: "C03.count: PRNG-generated vote schedules against the REAL Voter/VotesWrapper/BLS (7 validators with real BLS keys, harness-supplied weights 1-5 and committee sizes 16-27 so that counted weight lands on quorum-1/quorum/quorum+1 often): valid, duplicate, equivocating, bad-signature, wrong-sender, invalid-credential, stale-round and stale-index votes of all four kinds interleaved with step and round-index changes, certificate rounds in a third of the schedules. A reference vote-counting model (first vote per sender counts, a second different vote removes the sender) is fed with exactly the delivered votes in delivery order and evaluated inside the synchronous emission hooks: precommit needs the prevote quorum, certificate vote and commit need the precommit quorum, certificate-round commit also the certificate quorum; every commit's attached vote set must be distinct non-equivocating senders with valid BLS signatures over that block whose weight reaches the quorum and that PackVotes accepts. C03.real (real-credential mode): 4-6 validators with real VRF sortition weights, real BLS and the protocol committee sizes; a round index with an honest proposer and reachable quorum is searched, the real prevotes/precommits of every peer (plus equivocations for competing proposals) are delivered in random order; the same model judges emissions and EVERY commit is packed with Voter.PackVotes as Server.commit does and the resulting header is offered to the real Server.VerifySideChainHeader. C03.race: 4 delivering goroutines + a context-changing goroutine under the race detector. distinct_nontrivial = distinct (T, cert round?, commits, equivocation?, boundary hit?).",
 		Explanation: "held = no emission without the model's quorum, no invalid/equivocator vote inside a commit's vote set, no race report",
 		Assumptions: []string{"sortition weights and credential validity are harness-supplied callbacks (stub-weight mode, as the package's own tests do); certificate rounds are exercised in stub-weight mode only", "quorum constants 0.685/0.585 are taken from the property's anchored description"},
-		Require:     map[string]int64{"commits": 60, "equivocations": 300, "boundary_emissions": 30, "cert_round_commits": 5, "delivered_bad-signature": 100, "delivered_wrong-sender": 100, "delivered_invalid-credential": 100, "concurrent_runs": 20, "real_commits": 30, "commit_headers_verified": 30},
+		Require:     map[string]int64{"commits": 60, "equivocations": 300, "boundary_emissions": 30, "cert_round_commits": 5, "schedules_recycling_vote_wrappers": 40, "cert_round_schedules_recycling_vote_wrappers": 10, "delivered_bad-signature": 100, "delivered_wrong-sender": 100, "delivered_invalid-credential": 100, "concurrent_runs": 20, "real_commits": 30, "commit_headers_verified": 30},
 	}
 }
